@@ -107,3 +107,85 @@ Example C01_counts_example :
   | _ => False
   end.
 Proof. vm_compute. repeat split; discriminate. Qed.
+
+(* ---- one kind of element followed from its blueprint to the returned database (proofs/Sticky.v) ---- *)
+(* The sticky notes of the parsed database are, one per sticky-note blueprint and in order, objects holding exactly the declared
+   name and the declared text after note normalisation (preformat), pointing back to the database.  The step that builds and adds
+   a note fixes the object (computed exactly); the frame theorem taken in the middle of the build (Frame.v:
+   build_steps_write_only_to_the_database_and_new_objects) keeps it unchanged until the database is returned. *)
+From PyDBML Require Import Tools Sticky.
+Theorem C01_sticky_notes_hold_the_declared_name_and_text :
+  forall source allow sq dq h0 h1 d,
+    WW h0 -> (forall t tb, h_table h0 t = Some tb -> NoDup (names_of tb)) ->
+    (forall st, blueprints_of source allow h0 = (h0, Ok st) -> Forall good_table_bp (ps_tables st)) ->
+    parser_parse source allow sq dq h0 = (h1, Ok d) ->
+    exists st db, blueprints_of source allow h0 = (h0, Ok st) /\ h_database h1 d = Some db /\
+      Forall2 (fun bp o => exists nm tx, declares_sticky bp nm tx /\ h_sticky h1 o = Some (mkSticky nm tx (Some d)))
+              (ps_stickies st) (d_sticky_notes db).
+Proof. exact parser_parse_sticky_notes. Qed.
+Print Assumptions C01_sticky_notes_hold_the_declared_name_and_text.
+
+Example C01_sticky_note_example :
+  match parser_parse c01_doc false 0 1 [] with
+  | (h1, Ok d) => match h_database h1 d with
+                  | Some db => map (h_sticky h1) (d_sticky_notes db) = [Some (mkSticky (s2l "n") (s2l "text") (Some d))]
+                  | None => False
+                  end
+  | _ => False
+  end.
+Proof. vm_compute. reflexivity. Qed.
+
+(* ---- enums followed from their blueprints to the returned database (proofs/EnumC.v) ---- *)
+(* The enums of the parsed database are, one per enum blueprint and in order, objects with exactly the declared name, schema
+   (public when none is written) and comment, pointing back to the database, whose items are — one per declared item, in order —
+   objects with the declared name and comment and a note holding the declared (normalised) note text and pointing back to the
+   item.  Exact computation of Enum.__init__ / add_item / Database.add for the step, mid-build frame for the rest. *)
+From PyDBML Require Import EnumC.
+Theorem C01_enums_hold_the_declared_name_schema_and_items_in_order :
+  forall source allow sq dq h0 h1 d,
+    WW h0 -> (forall t tb, h_table h0 t = Some tb -> NoDup (names_of tb)) ->
+    (forall st, blueprints_of source allow h0 = (h0, Ok st) -> Forall good_table_bp (ps_tables st)) ->
+    parser_parse source allow sq dq h0 = (h1, Ok d) ->
+    exists st db, blueprints_of source allow h0 = (h0, Ok st) /\ h_database h1 d = Some db /\
+      Forall2 (fun bp e =>
+        exists nm sc c items decl os, declares_enum bp nm sc c items /\
+          Forall2 (fun ib dd => declares_item ib (fst (fst dd)) (snd (fst dd)) (snd dd)) items decl /\
+          h_enum h1 e = Some (mkEnum (Some d) nm sc c (Some os)) /\
+          Forall2 (fun dd o => nth_error h1 o = Some (OEnumItem (mkEnumItem (fst (fst dd)) (o - 1) (snd (fst dd)))) /\
+                               nth_error h1 (o - 1) = Some (ONote (mkNote (snd dd) (Some o)))) decl os)
+        (ps_enums st) (d_enums db).
+Proof. exact parser_parse_enums. Qed.
+Print Assumptions C01_enums_hold_the_declared_name_schema_and_items_in_order.
+
+Example C01_enum_example :
+  match parser_parse c01_doc false 0 1 [] with
+  | (h1, Ok d) => match h_database h1 d with
+                  | Some db => map (fun e => option_map (fun en => (e_name en, e_schema en, e_database en,
+                                      option_map (map (fun i => option_map ei_name (h_enumitem h1 i))) (e_items en))) (h_enum h1 e)) (d_enums db)
+                               = [Some (Some (s2l "e"), Some (s2l "public"), Some d, Some [Some (Some (s2l "a")); Some (Some (s2l "b"))])]
+                  | None => False
+                  end
+  | _ => False
+  end.
+Proof. vm_compute. reflexivity. Qed.
+
+(* ---- tables: keys and column names, at the end of the build (proofs/TablesC.v) ---- *)
+(* Every table of the parsed database comes from a table blueprint, answers to that blueprint's keys — `schema.name`, and the
+   alias when one is declared — and its columns are named as the blueprint declares, in order; conversely every table blueprint
+   has its table in the database. *)
+From PyDBML Require Import BuildRules BuildDocs BuildSpell TablesC.
+Theorem C01_tables_have_the_declared_keys_and_column_names_in_order :
+  forall source allow sq dq h0 h1 d,
+    WW h0 -> (forall t tb, h_table h0 t = Some tb -> NoDup (names_of tb)) ->
+    (forall st, blueprints_of source allow h0 = (h0, Ok st) -> Forall good_table_bp (ps_tables st)) ->
+    parser_parse source allow sq dq h0 = (h1, Ok d) ->
+    exists st, blueprints_of source allow h0 = (h0, Ok st) /\
+      (forall db t, h_database h1 d = Some db -> In t (d_tables db) ->
+         exists bp, In bp (ps_tables st) /\
+           (exists tb, h_table h1 t = Some tb /\ names_of tb = bp_keys bp) /\
+           (exists tb, h_table h1 t = Some tb /\
+              Forall2 (fun c n => exists cc, h_column h1 c = Some cc /\ c_name cc = n) (t_columns tb) (bp_colnames bp))) /\
+      (forall bp, In bp (ps_tables st) ->
+         exists db t, h_database h1 d = Some db /\ In t (d_tables db) /\ exists tb, h_table h1 t = Some tb /\ names_of tb = bp_keys bp).
+Proof. exact parser_parse_tables. Qed.
+Print Assumptions C01_tables_have_the_declared_keys_and_column_names_in_order.
